@@ -59,3 +59,27 @@ func vpH_c08_plugins_order() {
 		vpAssert(vpJKey(eb, j) == names[j], "marshalled env block is in document order")
 	}
 }
+
+func init() { vpRegister("c08_nested_unknown", vpH_c08_nested_unknown) }
+
+// mappings nested inside unknown fields and unknown steps keep document order
+func vpH_c08_nested_unknown() {
+	k1, k2 := vpStrUpTo(2, "a-b"), vpStrUpTo(2, "a-b")
+	vpAssume(k1 != k2)
+	nested := vpMapOf(k1, "1", k2, vpMapOf("z", 1, "a", 2))
+	unknownStep := vpMapOf("type", "future", "cfg", nested)
+	cmd := vpMapOf("command", "c", "agents", vpMapOf(k2, "q", k1, "r"))
+	doc := vpMapOf("steps", []any{unknownStep, cmd})
+	p := new(Pipeline)
+	_ = p.UnmarshalOrdered(doc) // unknown step: warning
+	b, err := p.MarshalJSON()
+	vpAssert(err == nil, "pipeline marshals")
+	sb, _ := vpJGet(b, "steps")
+	vpAssert(vpJLen(sb) == 2, "two steps")
+	us := vpJElem(sb, 0)
+	vpAssert(vpJKey(us, 0) == "type" && vpJKey(us, 1) == "cfg", "an unknown step keeps the order of its keys")
+	cfg, _ := vpJGet(us, "cfg")
+	vpAssert(vpJLen(cfg) == 2 && vpJKey(cfg, 0) == k1 && vpJKey(cfg, 1) == k2, "a mapping nested in an unknown step keeps document order")
+	inner := vpJElem(cfg, 1)
+	vpAssert(vpJKey(inner, 0) == "z" && vpJKey(inner, 1) == "a", "mappings nested deeper keep document order")
+}
